@@ -20,7 +20,7 @@ for i, (p, s) in enumerate(files.items()):
     t = os.path.join(tmp, 'f%d.go' % i)
     open(t, 'w').write(s)
     pairs.append(p + '=' + t)
-r = subprocess.run(['/verif/bin/pdsa', 'check', '-prop', props, '-repo', wt, '-verif', '/tmp/sweep-verif', '-overlay', ','.join(pairs)], capture_output=True, text=True)
+r = subprocess.run([os.environ.get('PDSA', '/verif/bin/pdsa'), 'check', '-prop', props, '-repo', wt, '-verif', '/tmp/sweep-verif', '-overlay', ','.join(pairs)], capture_output=True, text=True)
 for l in (r.stdout + r.stderr).splitlines():
     if l.startswith(('VIOLATION ', 'UNDECIDED ', 'MUTANT', 'inline', 'load', 'type')) or 'error' in l.lower():
         print(l[:300])
